@@ -715,7 +715,7 @@ def w1 : Heap K := Heap.init [⟨[1, 2], .ndarray, true⟩, ⟨[1, -1], .ndarray
 anything, yet the code as found **zeroes the negative entry in the caller's `y`**: the full frame
 property fails at `.arr 1`.  The repaired code leaves `y` alone. -/
 theorem clip_writes_caller_array (env : HEnv K) :
-    let c : Call K := .newEmpirical .source 0 1 [] [] false none false none
+    let c : Call K := .newEmpirical .source 0 1 [] [] false none .default none
     documented (w1 : Heap K) c = [] ∧
     ((step Fixes.asFound env w1 c).1.arrays[1]?).map (fun a : ArrCell K => a.data) = some ([1, 0] : List K) ∧
     ((step Fixes.repaired env w1 c).1.arrays[1]?).map (fun a : ArrCell K => a.data) = some ([1, -1] : List K) ∧
@@ -739,7 +739,7 @@ theorem frame_fails_asFound (env : HEnv K) :
     intro e
     have : (-1 : K) = 0 := by simp at e
     norm_num at this
-  have F := hf w1 [.newEmpirical .source 0 1 [] [] false none false none] (.arr 1)
+  have F := hf w1 [.newEmpirical .source 0 1 [] [] false none .default none] (.arr 1)
     (.arr ⟨[1, -1], .ndarray, true⟩) (by simp [documentedAlong, documented]) (by simp [Heap.get, w1, Heap.init])
   have W := (clip_writes_caller_array (K := K) env).2.1
   simp only [run] at F
@@ -807,10 +807,10 @@ flips the extrapolation flag, and a composite built earlier from the same `Empir
 example (env : HEnv K) :
     let h0 : Heap K :=
       { (Heap.init [⟨[1, 2], .ndarray, true⟩, ⟨[0, 0], .ndarray, true⟩] [] : Heap K) with
-        tables := [⟨0, 1, false, false, false⟩],
+        tables := [⟨0, 1, false, false, false, 0⟩],
         objs := [freshObj .source (.tab 0) Meta.empty, freshObj .source (.scale (.tab 0) 2) Meta.empty] }
     documented h0 (.forceExtrap 0 : Call K) = [.table 0] ∧
-      ((step Fixes.repaired env h0 (.forceExtrap 0)).1.tables[0]?).map (fun t : TableCell => t.fillNaN) = some true ∧
+      ((step Fixes.repaired env h0 (.forceExtrap 0)).1.tables[0]?).map (fun t : TableCell K => t.fillNaN) = some true ∧
       reads h0 1 = [.objModel 1, .objZ 1, .table 0, .arr 0, .arr 1] := by
   refine ⟨rfl, ?_, ?_⟩
   · simp [step, effects, forceExtrap, forceEffects, HTree.rootTab?, freshObj, Heap.init, Heap.applyAll,
